@@ -30,3 +30,14 @@ package util
 //@ props C12
 //@ requires template != nil
 //@ pure
+
+// C13: filtering the user's matches builds a new list; the list passed in (the Rollout's own step) is never written,
+// so two filters over the same input cannot disturb each other.
+//@ func FilterHttpRouteMatch
+//@ props C13
+//@ purefn f
+//@ ensures result_is_a_new_list: cap(result) == 0 || fresh(result)
+//@ ensures input_untouched: unchangedOutside()
+//@ ensures no_longer_than_input: len(result) <= len(s)
+//@ loop 1 invariant new_list: (cap(s2) == 0 || fresh(s2)) && len(s2) <= rangeindex + 1 && -1 <= rangeindex && rangeindex < len(s)
+//@ loop 1 invariant input_untouched: unchangedOutside()
